@@ -196,16 +196,16 @@ CONFIG = {
     "post_model": _c03_vm_sample,
     "timeout_quick": 600,
     "assumptions": [
-        "copy phase: C03_extended_closure / C03_depth_own_graph use C01's theorem (Proofs/CopySpec.v closure_lemma = C01_closure) through copy_run_of: for every root there is an accepted run of C01's copyGraph transition system that returned success from a link-closed destination and whose destination content is contained in the final destination. That ExtendedCopyGraph's concurrent per-root copyGraph calls (shared tracker, proxy and limiter: a node is copied by whichever call commits it first, the others wait for it) amount to such runs is modelled, not verified; the oracle checks the end-to-end statement on the real ExtendedCopy/ExtendedCopyGraph with Concurrency 0-4. The general forms C03_extended_closure_gen / C03_depth_own_graph_gen / C03_depth_nothing_outside keep the closure facts as Section hypotheses copy_closure_C01 / copy_only_C01; mt_consistent is C01's hypothesis for digest-keyed destinations",
+        "copy phase: C03_extended_closure / C03_depth_own_graph / C03_depth_nothing_outside / C03_nothing_outside are stated over C01's transition system (Model/CopySpec.v): extended_copy_run = ONE accepted run in which every root found is dispatched (c_root + c_xroots: one syncutil.Go, shared tracker/proxy/limiter), returned success, link-closed initial destination; closure below every root and 'writes only below dispatched roots' are proved here from C01's invariants (Proofs/FindRootsCopy.v closure_all_roots, run_writes_below_roots) for any number of roots and every accepted interleaving. That the real ExtendedCopyGraph's visible events form an accepted trace of that system is checked by C01's/C02's correspondence, not here: harness/copyh records ExtendedCopyGraph / ExtendedCopy runs (modes x / X, instrumented stores, controlled schedules under testing/synctest, latencies) and feeds them to the CopySpec acceptor with c_root+c_xroots = the roots above the node (bin/check C01); the C03 oracle checks the end-to-end statement on the real ExtendedCopy/ExtendedCopyGraph with Concurrency 0-4 under native scheduling, empty and prefilled (link-closed) destinations. The *_gen forms keep the closure facts as Section hypotheses copy_closure_C01 / copy_only_C01; mt_consistent is C01's hypothesis for digest-keyed destinations",
         "acyclic_source: the source's predecessor relation is acyclic (content addressing: a predecessor embeds the digest of its successor); pred_is_inverse_link: Predecessors is the inverse of content.Successors on the source (C07's subject; the harness checks it against the generator's edge list on every case)",
-        "served_ok (C03_filter_exact): a served descriptor may lack artifactType/annotations, but what it carries is the manifest's; a ReferrerLister source (remote repository: Referrers API response / referrers-tag index) serves complete referrer descriptors (artifactType = effective type, annotations = the manifest's) as the distribution spec requires -- the first filter does not fetch there. The harness registry serves such descriptors; generators keep descriptors consistent",
-        "regular expressions are their MatchString function (str -> bool), quantified over; Go regexp is evaluated by the harness into the truth table the model receives",
+        "served_ok (C03_filter_exact; needed: C03_filter_exact_refuted_embedded): pushing content to a memory/file store with a descriptor whose annotations/artifactType are not the manifest's is a caller inconsistency outside the property; a reloaded OCI layout serves plain predecessors since fix fda86b1 (audit F1, generated: embedded descriptors with their own fields). a served descriptor may lack artifactType/annotations, but what it carries is the manifest's; a ReferrerLister source (remote repository: Referrers API response / referrers-tag index) serves complete referrer descriptors (artifactType = effective type, annotations = the manifest's) as the distribution spec requires -- the first filter does not fetch there. The harness registry serves such descriptors; generators keep descriptors consistent",
+        "a user-supplied opts.FindPredecessors set before the filter calls is not modelled (the stack starts from src.Predecessors / Referrers); regular expressions are their MatchString function (str -> bool), quantified over; Go regexp is evaluated by the harness into the truth table the model receives",
         "encoding/json decoding of artifactType / config.mediaType / annotations is modelled as field selection (s_mat, s_mcfg, s_mann)",
         "for a remote repository the source's predecessor relation is the referrers (subject) relation only (Repository.Predecessors = Referrers); HTTP, pagination and the tag-schema fallback are exercised through an in-memory registry, not modelled (C15 models the page loop): the client's ReferrerListPageSize (unset / smaller / equal / larger), the registry's page cap, short pages with Link and server-side vs client-side artifactType filtering are drawn independently; a predecessor the source does not serve is reported (predecessors-missing); errors of Predecessors/Fetch are not modelled (findRoots returns them unchanged)",
         "media type case lists of FilterArtifactType / FilterAnnotation / fetchArtifactType are regenerated from extendedcopy.go (Generated/GC03.v); the value fetchArtifactType returns per case is hand-modelled and tied by correspondence",
     ],
     "level_text": "Coq theorems for every source graph, served predecessor order, start node, Depth and filter stack about a model of findRoots (stack DFS, visited set, depth-tagged frames), FilterArtifactType/FilterAnnotation (fetch-on-missing-field) and the ExtendedCopy wrapper: roots = tops of the upward closure and cover it (Depth<=0), two-sided depth bound, termination, filter exactness w.r.t. manifest content, end-to-end closure modulo C01's copy-closure hypothesis; tied to the code by hook-level differential runs (findRoots, opts.FindPredecessors, fetchArtifactType, ExtendedCopy) and an independent oracle on ExtendedCopy/ExtendedCopyGraph over memory, OCI (fresh and reopened), file and remote (Referrers API with pagination, referrers tag schema) sources",
-    "level_note": "copy phase = hypothesis copy_closure_C01 (C01); remote sources through an in-memory read-only registry only; concurrency of the copy phase is exercised (Concurrency 0-4) but not modelled here; Docker manifests have no artifact type (effective type \"\")",
+    "level_note": "oracle-only clauses: byte identity (the theorems speak of node membership, C01's has); the tag of ExtendedCopy in substance (C03_tagged is a statement about the 3-step wrapper model Resolve/copy/Tag, its correspondence reads the destination's references; the Tag call is outside C01's transition system); the given node must be stored in the source: a foreign (non-distributable) layer as start node is outside the quantifier (never stored, pred_is_inverse_link is over foreign-cut links) and is not generated; errors of Predecessors/Fetch/Referrers are not modelled -- the harness injects one failing source operation / registry request per fault case and demands error-or-full-closure; a finding made with Raw (store map order) reads may need several replays with Depth > 0; copy phase = hypothesis copy_closure_C01 (C01); remote sources through an in-memory read-only registry only; concurrency of the copy phase is exercised (Concurrency 0-4) but not modelled here; Docker manifests have no artifact type (effective type \"\")",
     "technique": "machine-checked proof in Coq (loop invariants of the stack DFS, for every served predecessor order) + model/implementation correspondence + independent oracle",
     "explanation": "(thorough: 280 sampled cases re-evaluated inside Coq with vm_compute against the extracted runner) loop-invariant proofs over the DFS of findRoots for every served order; filter exactness by induction over the filter stack; model vs implementation on findRoots (hook), opts.FindPredecessors and fetchArtifactType for random DAGs x source kinds x descriptor styles; oracle from the generator's inverse edge list and manifest fields on findRoots, ExtendedCopyGraph and ExtendedCopy",
 }
